@@ -183,6 +183,12 @@ class Corpus:
         return x if attached else copy.deepcopy(x)
 
 
+def _keep(result, v):
+    """Remembers what a call returned (for the reference comparison) and hands it on (for checks of the returned node)."""
+    result.append(v)
+    return v
+
+
 class Op:
     def __init__(self, kind, desc, parent, path, slot, apply, syntax_ok=True, inplace_ids=(), expect=None, list_check=None,
                  donors=(), attr=None, invalid=None):
@@ -859,10 +865,10 @@ class Generator:
                 ref.extend(vs)
             elif op == 'reverse':
                 apply = lambda: w.reverse()
-                if any(isinstance(x, mbase.RawModel) for x in ref):
+                if any(isinstance(x, mbase.RawModel) and ref[len(ref) - 1 - i] is not x for i, x in enumerate(ref)):
                     expect = ValueError         # elements that are nodes cannot be moved while attached: refused as a whole
                 else:
-                    ref.reverse()
+                    ref.reverse()               # (a node that keeps its place - the middle one - is not moved)
                 inplace = {id(x) for x in raw_w}
             elif op == 'iadd':
                 vs = [mk(), mk()][:r.randint(0, 2)]
@@ -970,7 +976,7 @@ class Generator:
         if op == 'setnew':
             key = 'k' + self.fresh_name()
             v = mv(key)
-            apply = lambda: result.append(w.__setitem__(key, v))
+            apply = lambda: _keep(result, w.__setitem__(key, v))
             exp_keys = keys + [key]
             stored = [(key, v)]
             desc += f'[{key!r}]={v!r:.40}'
@@ -979,7 +985,7 @@ class Generator:
                 return None
             key = r.choice(keys)
             v = mv(key)
-            apply = lambda: result.append(w.__setitem__(key, v))
+            apply = lambda: _keep(result, w.__setitem__(key, v))
             stored = [(key, v)]
             desc += f'[{key!r}]={v!r:.40}'
             inplace = {id(x) for x in getattr(m, raw_attr)}
@@ -989,14 +995,14 @@ class Generator:
             key = r.choice(keys)
             del exp_keys[first(key)]
             if op == 'del':
-                apply = lambda: result.append(w.__delitem__(key))
+                apply = lambda: _keep(result, w.__delitem__(key))
             else:
-                apply = lambda: result.append(w.pop(key))
+                apply = lambda: _keep(result, w.pop(key))
                 old = items_before[first(key)]
                 exp_result = ('item', old) if raw else ('value-of', old, old.value)
             desc += f'({key!r})'
         elif op == 'popdefault':
-            apply = lambda: result.append(w.pop('zz-missing', None))
+            apply = lambda: _keep(result, w.pop('zz-missing', None))
             exp_result = ('plain', None)
         elif op == 'delmissing':
             apply = lambda: w.__delitem__('zz-missing')
@@ -1004,7 +1010,7 @@ class Generator:
         elif op == 'setdefault':
             key = r.choice(keys + ['k' + self.fresh_name()])
             v = mv(key)
-            apply = lambda: result.append(w.setdefault(key, v))
+            apply = lambda: _keep(result, w.setdefault(key, v))
             if key not in keys:
                 exp_keys = keys + [key]
                 stored = [(key, v)]
@@ -1021,13 +1027,13 @@ class Generator:
                 desc += ' <meta of another entry>'
             else:
                 arg = d
-            apply = lambda: result.append(w.update(arg))
+            apply = lambda: _keep(result, w.update(arg))
             exp_keys = keys + [k for k in d if k not in keys]
             stored = list(d.items())
             desc += f'({list(d)!r})'
             inplace = {id(x) for x in getattr(m, raw_attr)}
         elif op == 'popitem':
-            apply = lambda: result.append(w.popitem())
+            apply = lambda: _keep(result, w.popitem())
             if not keys:
                 expect = KeyError
             else:
